@@ -38,6 +38,13 @@ type c04NS string
 type c04I interface{ MI() }
 type c04J interface{ MJ() }
 
+// c04IJ is an interface type that itself implements I and J: a value registered under the key IJ answers
+// for I and for J in its scope as any other implementing registration does.
+type c04IJ interface {
+	MI()
+	MJ()
+}
+
 var (
 	c04TypT1  = reflect.TypeOf(c04T1{})
 	c04TypPT1 = reflect.TypeOf(&c04T1{})
@@ -46,8 +53,10 @@ var (
 	c04TypCh  = reflect.TypeOf((chan<- int)(nil))
 	c04TypI   = reflect.TypeOf((*c04I)(nil)).Elem()
 	c04TypJ   = reflect.TypeOf((*c04J)(nil)).Elem()
-	c04Types  = []reflect.Type{c04TypT1, c04TypPT1, c04TypT2, c04TypNS, c04TypCh, c04TypI, c04TypJ}
-	c04Names  = []string{"T1", "*T1", "T2", "NS", "chan<- int", "I", "J"}
+	c04TypIJ  = reflect.TypeOf((*c04IJ)(nil)).Elem()
+	// (the presence masks of the static configurations cover the first seven; IJ is registered in histories)
+	c04Types = []reflect.Type{c04TypT1, c04TypPT1, c04TypT2, c04TypNS, c04TypCh, c04TypI, c04TypJ, c04TypIJ}
+	c04Names = []string{"T1", "*T1", "T2", "NS", "chan<- int", "I", "J", "IJ"}
 )
 
 // chans maps channel identity to a tag (channels carry no data we could tag).
@@ -115,6 +124,8 @@ func (r *c04Reg) mkValue(ti int, tag string, variant int) reflect.Value {
 		return reflect.ValueOf(c04Both{tag})
 	case 6: // under key J: nothing in the universe implements J; a dedicated implementor
 		return reflect.ValueOf(c04JImpl{tag})
+	case 7: // under key IJ
+		return reflect.ValueOf(c04Both{tag})
 	}
 	panic("ti")
 }
@@ -132,6 +143,8 @@ func c04Register(inj inject.Injector, ti int, v reflect.Value, api string) {
 		inj.MapTo(v.Interface(), (*c04I)(nil))
 	case ti == 6:
 		inj.MapTo(v.Interface(), (*c04J)(nil))
+	case ti == 7:
+		inj.MapTo(v.Interface(), (*c04IJ)(nil))
 	default:
 		inj.Map(v.Interface())
 	}
@@ -585,6 +598,9 @@ func c04HistoryOps() []c04HOp {
 	// the pointer currently registered under *T1 in the scope is registered under the key I as well (one
 	// instance under two types: re-registering one type later is no business of the other)
 	ops = append(ops, c04HOp{Kind: "reg-shared", Scope: 0, Type: 5}, c04HOp{Kind: "reg-shared", Scope: 1, Type: 5})
+	// a value under an interface key that implements I and J (MapTo): it answers for both from then on, also
+	// after a lookup of I or J in that scope had found nothing
+	ops = append(ops, c04HOp{Kind: "reg", Scope: 0, Type: 7}, c04HOp{Kind: "reg", Scope: 1, Type: 7})
 	for _, ti := range []int{5, 1, 2} {
 		ops = append(ops, c04HOp{Kind: "value", Type: ti})
 	}
